@@ -10,7 +10,7 @@ LAB=/tmp/mut
 COV=$LAB/coverage; rm -rf $COV; mkdir -p $COV/raw
 props=${@:-C01 C02 C03 C04 C05 C06 C07 C08 C09 C10 C11 C12 C13 C14 C15 C16 C17 C18 C19 C20}
 for p in $props; do
-  VERIF_DEV_ROOT=$LAB VERIF_COVERAGE=$COV/raw /verif/check $p --tier quick > $COV/$p.log 2>&1
+  VERIF_DEV_ROOT=$LAB VERIF_COVERAGE=$COV/raw /verif/check $p --tier quick --scale ${COVSCALE:-0.3} > $COV/$p.log 2>&1
   echo "$p rc=$? $(tail -1 $COV/$p.log)"
 done
 BIN=$(dirname $(find ~/.rustup/toolchains/nightly*/lib/rustlib -name llvm-profdata | head -1))
